@@ -11,6 +11,14 @@ def step (line : String) : String :=
   match words line with
   | ["le", h] => match ofHex? h with | some b => showU (ofBytesLE b) | none => "bad-op"
   | ["be", h] => match ofHex? h with | some b => showU (ofBytesBE b) | none => "bad-op"
+  -- the same constructors on a sub-slice of a larger buffer: the value is that of the slice alone
+  -- and the caller's buffer (slice and what follows it) is left as it was
+  | ["les", h, t] => match ofHex? h, ofHex? t with
+    | some b, some tl => s!"{showU (ofBytesLE b)} data={hex b} tail={hex tl}"
+    | _, _ => "bad-op"
+  | ["bes", h, t] => match ofHex? h, ofHex? t with
+    | some b, some tl => s!"{showU (ofBytesBE b)} data={hex b} tail={hex tl}"
+    | _, _ => "bad-op"
   | ["big", d] => match parseDec? d.toList with | some n => showU (ofBig n) | none => "bad-op"
   | ["json", d] => match unmarshal? d.toList with | some u => showU u | none => "err"
   | ["cmp", a, b] => match ofHex? a, ofHex? b with
